@@ -802,6 +802,12 @@ func (m *MsgBridgeCall) validateBasic() (err error) {
 	if m.Value.IsNil() || m.Value.Sign() != 0 {
 		return sdkerrors.ErrInvalidRequest.Wrap("value must be zero")
 	}
+	for _, coin := range m.Coins {
+		// a coin decoded without its amount field has a nil amount, which sdk.Coins.Validate dereferences
+		if coin.IsNil() {
+			return sdkerrors.ErrInvalidCoins.Wrap("coin amount is nil")
+		}
+	}
 	if err = m.Coins.Validate(); err != nil {
 		return sdkerrors.ErrInvalidCoins.Wrap(err.Error())
 	}
